@@ -22,7 +22,7 @@ var (
 	nsFamC07 = []string{"nodesim-campaign-with-unapplied-config-change", "nodesim-membership-differs",
 		"nodesim-applied-entry-differs", "nodesim-two-leaders-one-term", "nodesim-panic"}
 	nsFamC06 = []string{"nodesim-stale-read", "nodesim-panic"}
-	nsFamC12 = []string{"nodesim-no-terminal-result", "nodesim-two-results", "nodesim-completed-not-applied",
+	nsFamC12 = []string{"nodesim-no-terminal-result", "nodesim-timeout-before-deadline", "nodesim-two-results", "nodesim-completed-not-applied",
 		"nodesim-foreign-result", "nodesim-panic"}
 	nsFamC17 = []string{"nodesim-no-leader-in-fair-phase", "nodesim-no-progress-in-fair-phase",
 		"nodesim-replica-not-caught-up", "stuck-quorum-needs-self-removed-replica",
